@@ -89,6 +89,9 @@ fn slots_of_map(m: &Mem) -> Vec<usize> {
 
 impl World {
     fn new() -> World {
+        // the library's mappings are placed in the reserved arena (see interpose.rs): a munmap
+        // that is too long hits reserved pages, not the neighbours the kernel would have chosen
+        crate::interpose::place_in_arena(true);
         World {
             handles: Vec::new(),
             insts: Vec::new(),
@@ -136,7 +139,28 @@ impl World {
             Kind::OwnedFile => {
                 let f = crate::layouts::tempfile().unwrap();
                 f.set_len(SIZE.max(size) as u64).unwrap();
-                GuestRegionMmap::from_range(base, size, Some(vm_memory::FileOffset::new(f, 0))).map_err(|e| format!("{:?}", e))?
+                let fo = vm_memory::FileOffset::new(f, 0);
+                // the construction route rotates with the slot: the convenience constructor, the
+                // builder with the hugetlbfs hint, and the hint set on the finished region (a
+                // hint does not change what was mapped, so not what has to be unmapped either)
+                match (slot + self.size_override.map_or(0, |s| s % 3)) % 3 {
+                    0 => GuestRegionMmap::from_range(base, size, Some(fo)).map_err(|e| format!("{:?}", e))?,
+                    1 => {
+                        let r = vm_memory::mmap::MmapRegionBuilder::new(size)
+                            .with_file_offset(fo)
+                            .with_mmap_prot(libc::PROT_READ | libc::PROT_WRITE)
+                            .with_mmap_flags(libc::MAP_SHARED | libc::MAP_NORESERVE)
+                            .with_hugetlbfs(true)
+                            .build()
+                            .map_err(|e| format!("{:?}", e))?;
+                        GuestRegionMmap::new(r, base).map_err(|e| format!("{:?}", e))?
+                    }
+                    _ => {
+                        let mut r = vm_memory::MmapRegion::from_file(fo, size).map_err(|e| format!("{:?}", e))?;
+                        r.set_hugetlbfs(true);
+                        GuestRegionMmap::new(r, base).map_err(|e| format!("{:?}", e))?
+                    }
+                }
             }
             #[cfg(not(feature = "xen"))]
             Kind::ExternalRaw | Kind::ExternalRawFile => {
@@ -607,7 +631,7 @@ fn explore(ctx: &Ctx, kinds: &[Kind], depth: usize, max_handles: usize) {
             continue;
         }
         if !ok || violated {
-            let _ = w.finish();
+            let _ = crate::crash::guarded(ctx, &describe, || w.finish());
             continue;
         }
         transitions += 1;
@@ -619,7 +643,7 @@ fn explore(ctx: &Ctx, kinds: &[Kind], depth: usize, max_handles: usize) {
             ctx.sample(json!({"history": format!("{:?}", hist), "handles_alive": w.handles.len()}));
         }
         // end of history: drop everything in the remaining order; nothing may stay mapped
-        if let Err((k, d)) = w.finish() {
+        if let Some(Err((k, d))) = crate::crash::guarded(ctx, &describe, || w.finish()) {
             ctx.fail(&format!("C12/{}", k), &format!("after {:?} and dropping all handles: {}", hist, d), json!({"history": format!("{:?}", hist), "then": "drop all"}));
         }
         for op in next_ops {
@@ -719,10 +743,10 @@ fn size_sweep(ctx: &Ctx, kinds: &[Kind], thorough: bool) {
                     continue;
                 }
                 if failed {
-                    let _ = w.finish();
+                    let _ = crate::crash::guarded(ctx, &describe, || w.finish());
                     continue;
                 }
-                if let Err((key, d)) = w.finish() {
+                if let Some(Err((key, d))) = crate::crash::guarded(ctx, &describe, || w.finish()) {
                     ctx.fail(&format!("C12/{}", key), &format!("size {:#x}, after {:?} and dropping all handles: {}", size, hist, d), json!({"size": size, "history": format!("{:?}", hist), "then": "drop all"}));
                 }
             }
@@ -832,7 +856,7 @@ fn failed_creations(ctx: &Ctx) {
 
 pub fn run(tier: Tier, replay: Option<String>) -> i32 {
     let ctx = crate::new_ctx("C12", tier, "model_checking", &replay);
-    ctx.set_rule("E1: BFS over all histories up to the depth bound of {create region (owned anonymous / owned file-backed / external raw / external raw file-backed; Xen build: UNIX, grant in advance, foreign on the emulated devices), build a map from any subset of region handles, insert, remove (yields a removed-region handle), clone map, wrap in GuestMemoryAtomic, snapshot, clone handle, drop ANY live handle}; state = owner graph (which handle keeps which region alive), each frontier state is rebuilt by replaying its history on the real objects with mmap/munmap (and the grant ioctls) recorded through link-time interposition. After every step: a region with an owner has not been passed to munmap and is readable; a region whose last owner went away was munmap'ed exactly once with exactly its mapped length (grant: plus exactly one matching unmap ioctl); external mappings are never unmapped; at the end of every history all remaining handles are dropped and the same invariant is checked. Address-space accounting: the whole mapping log is replayed after every step; every page the library mapped while creating a region is attributed to it, all pages of a region with an owner must still be mapped, and none of the pages attributed to a region without owners may remain. Size sweep: the life cycle {create, build, clone, atomic, snapshot, optional remove} followed by the drop orders of the five owners for owned regions of 1 byte .. 32 MiB+1 (thorough: .. 1 GiB+1; page multiples and not, around the 2 MiB huge-page size), same invariants. Failed creations (std build): anonymous and file-backed regions and a two-region map created through four routes with exactly one mmap call failing, or one query of the file length failing or reporting an empty file: nothing the library mapped on the way may remain.");
+    ctx.set_rule("E1: BFS over all histories up to the depth bound of {create region (owned anonymous / owned file-backed - through from_range, the builder with the hugetlbfs hint, or with the hint set afterwards, rotating with the slot - / external raw / external raw file-backed; Xen build: UNIX, grant in advance, foreign on the emulated devices), build a map from any subset of region handles, insert, remove (yields a removed-region handle), clone map, wrap in GuestMemoryAtomic, snapshot, clone handle, drop ANY live handle}; state = owner graph (which handle keeps which region alive), each frontier state is rebuilt by replaying its history on the real objects with mmap/munmap (and the grant ioctls) recorded through link-time interposition. After every step: a region with an owner has not been passed to munmap and is readable; a region whose last owner went away was munmap'ed exactly once with exactly its mapped length (grant: plus exactly one matching unmap ioctl); external mappings are never unmapped; at the end of every history all remaining handles are dropped and the same invariant is checked. Address-space accounting: the whole mapping log is replayed after every step; every page the library mapped while creating a region is attributed to it, all pages of a region with an owner must still be mapped, and none of the pages attributed to a region without owners may remain. Size sweep: the life cycle {create, build, clone, atomic, snapshot, optional remove} followed by the drop orders of the five owners for owned regions of 1 byte .. 32 MiB+1 (thorough: .. 1 GiB+1; page multiples and not, around the 2 MiB huge-page size), same invariants. Failed creations (std build): anonymous and file-backed regions and a two-region map created through four routes with exactly one mmap call failing, or one query of the file length failing or reporting an empty file: nothing the library mapped on the way may remain.");
     ctx.assume("the 'programs' half of the property (accessors cannot outlive their parent) is decided by the compile-fail grid in tools/cfail.py and rests on Rust's borrow checker");
     if ctx.replay_of.is_some() {
         println!("replay: deterministic search; re-running it");
